@@ -183,7 +183,17 @@ def hull_wiring_case(M, relative):
     est.register_system(Sx, lb=np.zeros(2), ub=ub)
     if not M.symbolic:
         v = est.compute_hull(relative=relative, seed=1)
-        return {"a finite metric is returned": bool(np.isfinite(v))}
+        # float counterpart: the same metric computed from an independently built cloud and reference (same seed => same directions)
+        from dreye.api.metrics import compute_gamut
+        from vf.props.c03 import corners, corner_x
+        grid = [0, 1, 2]
+        A = np.array([[_trap(list(F[i]), list(Sx[k]), grid) for k in range(2)] for i in range(2)], dtype=float)
+        Aeff, beff = fs.effective_model(A, K if relative else None, base if relative else None, "vec" if relative else "none")
+        Pspec = np.array([fs.predict(Aeff, beff, corner_x(c, [0, 0], list(ub))) for c in corners(2)], dtype=float)
+        eye = np.eye(3)
+        ref = np.array([[(K[i] * (_trap(list(F[i]), list(eye[r_]), grid) + base[i])) if relative else _trap(list(F[i]), list(eye[r_]), grid) for i in range(2)] for r_ in range(3)], dtype=float)
+        want = compute_gamut(Pspec, relative_to=ref, center_to_neutral=False, center=True, metric="width", seed=1)
+        return {"a finite metric is returned": bool(np.isfinite(v)), "the metric is that of the gamut cloud relative to the delta-signal captures in the requested capture": M.eq(v, want)}
     REC.clear()
     est.compute_hull(relative=relative, seed=1)
     call = REC.get("gamut_call")
